@@ -46,7 +46,9 @@ HEADER_LENS = [1, 2, 6, 35, 255, 256, 257, 300, 65535, 65536, 70000]
 
 
 def _headers(draw):
-    kind = draw(st.sampled_from(["gpg-like", "gpg-like", "random", "boundary"]))
+    kind = draw(st.sampled_from(["gpg-like", "gpg-like", "random", "boundary", "rich"]))
+    if kind == "rich":
+        return draw(GE.HEADERS.filter(lambda h: h is not None and len(h) > 40 and h[:4] == bytes([4, 0, 22, 8])))
     if kind == "gpg-like":
         return ref_openpgp.default_headers(draw(st.binary(min_size=20, max_size=20)).hex(), draw(st.integers(0, 2 ** 32 - 1)))
     if kind == "random":
